@@ -12,6 +12,7 @@ from __future__ import annotations
 
 import copy
 import dataclasses
+import math
 import random
 import traceback
 import warnings
@@ -374,6 +375,10 @@ def _build_state(cfg, mask=None, deck_seed=None):
     antes = [chip(cfg, v) for v in cfg['antes']]
     blinds = [chip(cfg, v) for v in cfg['blinds']]
     stacks = [chip(cfg, v) for v in cfg['stacks']]
+    for i in cfg.get('inf_stacks') or ():
+        # the documented way to say "this stack is not known" (README)
+        if i < len(stacks):
+            stacks[i] = math.inf
     n = cfg['n']
     kw = dict(mode=mode, starting_board_count=cfg.get('boards', 1))
     rk = make_rake(cfg)
@@ -930,6 +935,11 @@ class Interp:
         hi = s.max_completion_betting_or_raising_to_amount
         pot = s.pot_completion_betting_or_raising_to_amount
         u = self.unit
+        if hi is not None and lo is not None and hi == math.inf:
+            # an unknown (infinite) stack: stay within sight of the minimum
+            hi = lo + 40 * u
+            if pot is not None and pot == math.inf:
+                pot = hi
         m = a % 8
         if self.cfg.get('profile', 0) == 2 and a % 3 == 1:
             m = 2
